@@ -105,18 +105,32 @@ pub fn check_names(rep: &mut CaseReport, f: &SynthFont, bytes: &[u8]) {
             }
         }
     } else if !var_axes.is_empty() { rep.fail("variable-source-without-fvar", ""); }
+    let fea_stat = f.features.as_ref().map(|t| t.contains("table STAT")).unwrap_or(false);
+    if fea_stat { rep.class("stat-from-feature-code"); }
+    // records the source supplies under font-specific ids keep their strings
+    for (id, want) in &f.sources[0].info.name_records {
+        rep.evals += 1;
+        rep.class("source-name-records");
+        match names.get(id) { Some(s) if s == want => {} other => rep.fail("source-name-record-lost-or-overwritten", format!("openTypeNameRecords gives name id {id} = {want:?}; the font has {other:?}")) }
+    }
     if let Ok(stat) = font.f.stat() {
         if let Ok(axes) = stat.design_axes() {
             for a in axes {
                 let id = a.axis_name_id().to_u16();
                 if id < 256 { rep.fail("stat-axis-name-id-in-reserved-range", format!("{}: {id}", a.axis_tag())); }
                 if let (Some(s), Some(ma)) = (resolve(rep, id, &format!("STAT axis {}", a.axis_tag())), var_axes.iter().find(|m| m.tag == a.axis_tag().to_string())) {
-                    let want = ma.label.clone().unwrap_or(ma.name.clone());
+                    let want = if fea_stat { format!("Stat {}", ma.name) } else { ma.label.clone().unwrap_or(ma.name.clone()) };
                     if s != want { rep.fail("stat-axis-name-differs-from-source-label", format!("axis {}: {s:?} vs {want:?}", ma.tag)); }
                 }
             }
         }
-        if let Some(id) = stat.elided_fallback_name_id() { resolve(rep, id.to_u16(), "STAT elidedFallbackNameID"); }
+        if let Some(id) = stat.elided_fallback_name_id() {
+            let got = resolve(rep, id.to_u16(), "STAT elidedFallbackNameID");
+            if let (Some(got), Some(t)) = (got, f.features.as_ref()) {
+                if t.contains("ElidedFallbackNameID 2;") && Some(&got) != names.get(&2) { rep.fail("stat-elided-fallback-name-differs-from-feature-code", format!("the feature file says name id 2 ({:?}); STAT points at id {} = {got:?}", names.get(&2), id.to_u16())); }
+                if t.contains("ElidedFallbackName {") && got != "Elided" { rep.fail("stat-elided-fallback-name-differs-from-feature-code", format!("the feature file says \"Elided\"; STAT points at id {} = {got:?}", id.to_u16())); }
+            }
+        }
         if let Some(Ok(vals)) = stat.offset_to_axis_values() {
             for v in vals.axis_values().iter().flatten() {
                 use read_fonts::tables::stat::AxisValue;
@@ -168,7 +182,11 @@ pub fn check(ctx: &Ctx, genome: &[u16]) -> CaseReport {
     rep.sample = Some(json!({"font": describe(&f), "info": format!("{:?}", f.sources[0].info), "axis_labels": f.axes.iter().map(|a| json!([a.name, a.label, a.other_labels])).collect::<Vec<_>>(),
         "instances": f.instances.iter().map(|i| json!({"style": i.style, "family": i.family, "ps": i.ps_name, "norm": i.norm})).collect::<Vec<_>>(), "features": f.features}));
     if ctx.dry { for (k, v) in crate::synth::ufo::render(&f) { rep.artifacts.push((k, v.into_bytes())); } return rep; }
-    let Some(b) = build(ctx, &mut rep, f, &BuildOpts::default()) else { return rep };
+    let Some(b) = build(ctx, &mut rep, f, &BuildOpts::default()) else {
+        // recorded finding: an ElidedFallbackNameID naming a record of the font's own name table panics in fea-rs
+        for fl in rep.failures.iter_mut() { if fl.detail.contains("ElidedFallbackNameID") && fl.detail.contains("does not exist in font") { fl.signature = "fea-stat-elided-fallback-name-id-from-the-fonts-name-table-panics".into(); } }
+        return rep;
+    };
     check_names(&mut rep, &b.font, &b.bytes);
     // "does not depend on anything but the source": rebuild (fresh hash keys) and compare the naming tables
     let scratch = Scratch::new(&ctx.work);
